@@ -27,13 +27,15 @@ CStrsVals == {<<c>> : c \in CStrVals} \cup {<<<<>>, <<97>>>>, <<<<97>>, <<>>, <<
 
 \* ---- names: absolute, as label sequences without the root label; Origin = example.
 Origin == <<<<101, 120, 97, 109, 112, 108, 101>>>>
+SubOrigin == <<<<115, 117, 98>>>> \o Origin         \* sub.example.: a second origin ($ORIGIN inside the zone)
 LabelOctets == IF Wide THEN {0, 9, 10, 32, 34, 36, 40, 41, 42, 46, 48, 59, 64, 65, 92, 97, 127, 128, 255}
                ELSE {0, 32, 34, 46, 64, 65, 92, 255}
 Labels == (StrUpTo(LabelOctets, 2) \ {<<>>}) \cup {Rep(120, 63), Rep(255, 63)}
 Labels1 == {lb \in Labels : Len(lb) = 1}
 NameVals == {<<>>, Origin, <<<<97>>>> \o Origin, <<<<65>>, <<98>>>> \o Origin, <<<<111, 116, 104, 101, 114>>>>,
              <<<<120>>, <<101, 120, 97, 109, 112, 108, 101>>, <<111, 114, 103>>>>,
-             <<Rep(120, 63), Rep(121, 63), Rep(122, 63), Rep(119, 61)>>}
+             <<Rep(120, 63), Rep(121, 63), Rep(122, 63), Rep(119, 61)>>,
+             SubOrigin, <<<<109, 97, 105, 108>>>> \o SubOrigin, <<<<46>>, <<65>>>> \o SubOrigin}   \* sub.example. mail.sub.example. \..A.sub.example.
             \cup {<<lb>> \o Origin : lb \in Labels}
             \cup {<<lb>> : lb \in (IF Wide THEN Labels ELSE Labels1)}
             \cup {<<<<97>>, lb>> \o Origin : lb \in (IF Wide THEN Labels ELSE Labels1)}
@@ -165,16 +167,41 @@ Styles == {[id |-> "default", b64 |-> 32, b64sep |-> " ", hex |-> 128, hexsep |-
            [id |-> "chunk4tab", b64 |-> 4, b64sep |-> "\t", hex |-> 2, hexsep |-> "\t", utf8 |-> FALSE],
            [id |-> "chunk5sp2", b64 |-> 5, b64sep |-> "  ", hex |-> 3, hexsep |-> "  ", utf8 |-> FALSE],
            [id |-> "utf8", b64 |-> 32, b64sep |-> " ", hex |-> 128, hexsep |-> " ", utf8 |-> TRUE]}
-\* ot / op: origin given to to_text / from_text ("none" or "org"); rt / rp: their relativize flag
-OrgConfigs == {[id |-> "plain", ot |-> "none", rt |-> TRUE, op |-> "none", rp |-> TRUE],
-               [id |-> "relrel", ot |-> "org", rt |-> TRUE, op |-> "org", rp |-> TRUE],
-               [id |-> "relabs", ot |-> "org", rt |-> TRUE, op |-> "org", rp |-> FALSE],
-               [id |-> "absnone", ot |-> "org", rt |-> FALSE, op |-> "none", rp |-> TRUE],
-               [id |-> "absrel", ot |-> "org", rt |-> FALSE, op |-> "org", rp |-> TRUE],
-               [id |-> "asisrel", ot |-> "none", rt |-> TRUE, op |-> "org", rp |-> TRUE],
-               [id |-> "asisabs", ot |-> "none", rt |-> TRUE, op |-> "org", rp |-> FALSE]}
-GenConfigs == {[id |-> "gnone", op |-> "none", rp |-> TRUE], [id |-> "grel", op |-> "org", rp |-> TRUE],
-               [id |-> "gabs", op |-> "org", rp |-> FALSE]}
+\* Origins: "none", "org" (example., the zone origin) and "sub" (sub.example., a $ORIGIN inside the zone).
+\* ot / rt: origin and relativize flag given to to_text; op / rp / relto: origin, relativize flag and
+\* relativize_to given to from_text (relto "none" = not given: names are relativized to op).
+\* The last three are what the zone reader does after a $ORIGIN change (origin = $ORIGIN, relativize_to =
+\* zone origin) and the converse nesting.
+OC(id, ot, rt, op, rp, relto) == [id |-> id, ot |-> ot, rt |-> rt, op |-> op, rp |-> rp, relto |-> relto]
+OrgConfigs == {OC("plain", "none", TRUE, "none", TRUE, "none"),
+               OC("relrel", "org", TRUE, "org", TRUE, "none"),
+               OC("relabs", "org", TRUE, "org", FALSE, "none"),
+               OC("absnone", "org", FALSE, "none", TRUE, "none"),
+               OC("absrel", "org", FALSE, "org", TRUE, "none"),
+               OC("asisrel", "none", TRUE, "org", TRUE, "none"),
+               OC("asisabs", "none", TRUE, "org", FALSE, "none"),
+               OC("subrelto", "sub", TRUE, "sub", TRUE, "org"),      \* text relative to $ORIGIN, record relative to the zone
+               OC("absrelto", "org", FALSE, "sub", TRUE, "org"),     \* absolute text, origin = $ORIGIN, relativize_to = zone
+               OC("orgrelsub", "org", TRUE, "org", TRUE, "sub"),     \* relativize_to below the origin
+               OC("subreltoabs", "sub", TRUE, "sub", FALSE, "org")}  \* relativize off: relativize_to must not matter
+GC(id, op, rp, relto) == [id |-> id, op |-> op, rp |-> rp, relto |-> relto]
+GenConfigs == {GC("gnone", "none", TRUE, "none"), GC("grel", "org", TRUE, "none"), GC("gabs", "org", FALSE, "none"),
+               GC("gsubrelto", "sub", TRUE, "org"), GC("gorgrelsub", "org", TRUE, "sub"), GC("gsubreltoabs", "sub", FALSE, "org")}
+
+\* The relativity calculus.  A record / a text has a BASE: "abs" (all names absolute) or an origin id
+\* b: the names at or under origin b are spelled relative to it, all others absolute.
+Bases == {"abs", "org", "sub"}
+\* producing text under (ot, rt) is meaningful only if the record's relative names are relative to ot
+Applicable(oc, b) == oc.ot = "none" \/ b \in {"abs", oc.ot}
+TextBase(oc, b) == IF oc.ot = "none" THEN b ELSE IF oc.rt THEN oc.ot ELSE "abs"
+\* ... and parsing completes relative names with op, so the text's base must be "abs" or op
+Readable(oc, tb) == oc.op = "none" \/ tb \in {"abs", oc.op}
+ParseBase(oc, tb) == IF oc.op = "none" THEN tb
+                     ELSE IF ~oc.rp THEN "abs"
+                     ELSE IF oc.relto # "none" THEN oc.relto ELSE oc.op
+OutBase(oc, b) == ParseBase(oc, TextBase(oc, b))
+GenBase(gc) == ParseBase(gc, "abs")
+ConfigsLossless == \A oc \in OrgConfigs, b \in Bases : Applicable(oc, b) => Readable(oc, TextBase(oc, b))
 
 \* ---- numeric boundary strings substituted into the numbers of a record's text
 Zs(k) == [i \in 1..k |-> "0"]
